@@ -4,9 +4,12 @@ import (
 	"context"
 	"fmt"
 	"os"
+	"reflect"
 	"strings"
+	"sync"
 
 	metav1 "k8s.io/apimachinery/pkg/apis/meta/v1"
+	"k8s.io/apimachinery/pkg/types"
 	"k8s.io/apiserver/pkg/authentication/user"
 	"k8s.io/apiserver/pkg/authorization/authorizer"
 
@@ -96,6 +99,40 @@ func count(quick bool, q, t, race int) int {
 		return race
 	}
 	return t
+}
+
+// stamper gives UpstreamCluster objects the metadata the API server would: generation 1 and a fresh uid at creation,
+// generation +1 whenever spec or annotations differ from the previous version, everything reset after a deletion.
+type stamper struct {
+	mu   sync.Mutex
+	last map[string]*proxyv1alpha1.UpstreamCluster
+	n    int64
+}
+
+var stamps = &stamper{last: map[string]*proxyv1alpha1.UpstreamCluster{}}
+
+func (s *stamper) stamp(o *proxyv1alpha1.UpstreamCluster) *proxyv1alpha1.UpstreamCluster {
+	s.mu.Lock()
+	defer s.mu.Unlock()
+	last := s.last[o.Name]
+	switch {
+	case last == nil:
+		s.n++
+		o.Generation = 1
+		o.UID = types.UID(fmt.Sprintf("uid-%s-%d", o.Name, s.n))
+	case !reflect.DeepEqual(last.Spec, o.Spec) || !reflect.DeepEqual(last.Annotations, o.Annotations):
+		o.Generation, o.UID = last.Generation+1, last.UID
+	default:
+		o.Generation, o.UID = last.Generation, last.UID
+	}
+	s.last[o.Name] = o.DeepCopy()
+	return o
+}
+
+func (s *stamper) forget(name string) {
+	s.mu.Lock()
+	delete(s.last, name)
+	s.mu.Unlock()
 }
 
 // limHandle is how a workload reaches the limiter of one cluster: get(name) is called once per request, exactly like
